@@ -75,7 +75,7 @@ type Sched struct {
 }
 
 func NewSched(t *sim.Tape, n int) *Sched {
-	s := &Sched{Tape: t, back: make(chan int), MaxSteps: 200000, SwitchHash: 14695981039346656037}
+	s := &Sched{Tape: t, back: make(chan int), MaxSteps: 2000000, SwitchHash: 14695981039346656037}
 	for i := 0; i < n; i++ {
 		s.Clients = append(s.Clients, &Client{ID: i, wake: make(chan struct{})})
 	}
